@@ -2,11 +2,18 @@
 
 Correspondence: cnvlib.segmentation.do_segmentation (methods none, haar, hmm,
 hmm-tumor, hmm-germline; skip_low / outlier filter / min_weight; 1..16
-processes) against the extracted Coq model (Model/Arms.v, Model/Segment.v).
-The model is fed two oracles taken from the code itself: the outlier mask
-(segmentation.drop_outliers on the same bins) and the breakpoints (cumulative
-sums of the code's own `probes` column, validated against the contract).
-Independently of the model, the four clauses of the property are evaluated
+processes; variants= for none and haar) against the extracted Coq model
+(Model/Arms.v, Model/Segment.v, which run the C07 iter_slices model for the
+aggregation step and the C11 HaarSeg core for haar).
+Two streams.  (1) per chromosome, every method: the model is fed the outlier
+mask (segmentation.drop_outliers on the same bins) and the breakpoints
+(cumulative sums of the code's own `probes` column) as oracles.  (2) whole
+table, none and haar: the breakpoints and the log2 column of haar are COMPUTED
+by the model from oracles recorded by taps inside this process (the smoothed
+signal, the FDR p-values); variants= adds the state paths of the
+allele-frequency HMM as oracle and the BAF of a range as oracle function; rows
+are compared in table order, across 1, 2, 3, 16 processes.
+Independently of the model, the clauses of the property are evaluated
 directly on the code's output in exact rational arithmetic."""
 import os, json, math, re
 from fractions import Fraction
@@ -325,10 +332,13 @@ def check_case(ck, case, cls):
         mres = vlib.model_batch('c03_chrom', reqs)
         flags = vlib.model_batch('c03_survives', [[opts['skip_low'], F(opts['min_weight']), enc_bins(bins), masks[name]]
                                                   for name, bins in table])
-        marms = vlib.model_batch('c03_arms', [[[b[0], b[1]] for b in bins] for name, bins in table])
+        marms = vlib.model_batch('c03_arms', [[[[b[0], b[1]] for b in bins], code_share(len(bins))] for name, bins in table])
         for (name, bins), m, fl, ma in zip(table, mres, flags, marms):
             if fl != survs[name]:
                 raise RuntimeError('model survivor flags differ from the harness oracle on %s: %r vs %r' % (name, fl, survs[name]))
+            if ma[0] is not True:
+                raise RuntimeError('round(0.1 * %d) = %d violates the rounding contract' % (len(bins), code_share(len(bins))))
+            ma = ma[1]
             if ma != arms[name]:
                 ck.tie_break('model arm split differs from by_arm on %s' % name, case, code=arms[name], model=ma)
                 return rows
@@ -511,36 +521,464 @@ def load_corpus():
     return json.load(open(p))
 
 
+def code_share(n):
+    """the oracle r of Model/Arms.v: int(round(0.1 * n)) evaluated as by_arm evaluates it (same float product)"""
+    return int(round(0.1 * n))
+
+
+def arms_oracle(rows, r, sizes):
+    """arms_spec (Spec/Segments.v) stated independently on by_arm's answer: the arms are the rows in order, at
+    most two, none empty; split iff an interior gap (margin max(50, r) to both ends) is >= 100000, and then in
+    front of the FIRST row with the largest interior gap. -> message or None"""
+    n = len(rows)
+    if sum(sizes) != n or any(z <= 0 for z in sizes) or len(sizes) > 2 or (n and not sizes):
+        return 'arms %r do not partition the %d rows' % (sizes, n)
+    m = max(50, r)
+    inner = [(rows[j][0] - rows[j - 1][1], j) for j in range(m + 1, n - m)]
+    big = [g for g, j in inner if g >= 100000]
+    if (len(sizes) == 2) != bool(big):
+        return 'split=%s but the largest interior gap is %s' % (len(sizes) == 2, max([g for g, _ in inner]) if inner else None)
+    if len(sizes) == 2:
+        top = max(g for g, _ in inner)
+        first = min(j for g, j in inner if g == top)
+        if sizes[0] != first:
+            return 'cut in front of row %d, the first largest interior gap (%d) is in front of row %d' % (sizes[0], top, first)
+    return None
+
+
 def check_by_arm(ck):
-    """by_arm alone against the model, including chromosomes of more than 500 bins where the
-    10 % margin takes over from the 50-bin minimum."""
+    """by_arm alone against the model and against arms_spec, including chromosomes of more than 500 rows where
+    the 10 % share takes over from the 50-row minimum, the float-sensitive sizes n = 5 (mod 10) (the share is
+    the oracle int(round(0.1 * n)) with its contract), equal largest gaps (first-maximum rule) and gaps of
+    99999 / 100000 / 100001."""
     rng = ck.rng
     cases = []
-    sizes = [1, 2, 50, 100, 101, 102, 103, 150, 400, 499, 500, 501, 510, 520, 530, 540, 560, 600, 700]
-    for i in range(40 if ck.tier == 'quick' else 600):
-        n = rng.choice(sizes + [rng.randint(90, 720)])
-        if n > 500 and n % 10 == 5:
-            n += 1          # round(0.1 * n) is float-sensitive exactly at n = 5 (mod 10): margin guard of DESIGN section 2
-        m = max(50, int(round(n / 10)))
+    sizes = [1, 2, 50, 100, 101, 102, 103, 150, 400, 499, 500, 501, 504, 505, 506, 510, 515, 520, 525, 535, 545, 555, 565,
+             575, 585, 595, 600, 605, 615, 625, 700, 705, 715, 1005, 1015]
+    for i in range(70 if ck.tier == 'quick' else 900):
+        n = rng.choice(sizes + [rng.randint(90, 720), 505 + 10 * rng.randint(0, 40)])
+        r = code_share(n)
+        m = max(50, r)
         rows, pos = [], 0
         j = rng.choice([m, m + 1, m + 2, n - m - 2, n - m - 1, n - m, rng.randint(1, max(1, n - 1))])
-        j2 = rng.choice([None, None, rng.randint(1, max(1, n - 1))])
+        j2 = rng.choice([None, None, rng.randint(1, max(1, n - 1)), m + 1, n - m - 1, j + 1, j - 1])
         sz = rng.choice([100000, 99999, 100001, 500000])
         for k in range(n):
             if k and (k == j or k == j2):
-                pos += sz if k == j else rng.choice([sz, sz - 1, sz + 1])
+                pos += sz if k == j else rng.choice([sz, sz, sz - 1, sz + 1])
             elif k:
                 pos += rng.choice([0, 10, 1000])
             rows.append([pos, pos + 100])
             pos += 100
-        cases.append(rows)
-    model = vlib.model_batch('c03_arms', cases)
-    for rows, m in zip(cases, model):
+        cases.append((rows, r))
+    model = vlib.model_batch('c03_arms', [[rows, r] for rows, r in cases])
+    exact = vlib.model_batch('c03_arms', [[rows, None] for rows, r in cases])
+    ties = 0
+    for (rows, r), m, mx in zip(cases, model, exact):
+        n = len(rows)
         table = [['chr1', [[a, b, 'g', 0.0, 1.0, 1.0] for a, b in rows]]]
         c = code_arms(table)['chr1']
-        ck.count(['by_arm', rows], nontrivial=len(c) > 1, cls='by_arm:%s' % ('split' if len(c) > 1 else 'whole'))
-        if c != m:
-            ck.tie_break('model arm_split differs from by_arm', {'rows': rows}, code=c, model=m)
+        tie = n % 10 == 5
+        ties += tie and n > 500
+        ck.count(['by_arm', rows], nontrivial=len(c) > 1 or n > 500,
+                 cls='by_arm:%s%s' % ('split' if len(c) > 1 else 'whole', ':n=5mod10' if tie and n > 500 else ''))
+        if m[0] is not True:
+            raise RuntimeError('int(round(0.1 * %d)) = %d is not within 1/2 of n/10: the rounding contract of Model/Arms.v fails' % (n, r))
+        bad = arms_oracle(rows, r, c)
+        if bad:
+            ck.violation('by_arm: ' + bad, {'rows': rows}, code=c, expected='arms_spec', clause='C03_arms')
+            continue
+        if c != m[1]:
+            ck.tie_break('model arm_split_with differs from by_arm', {'rows': rows, 'r': r}, code=c, model=m[1])
+        if not tie and mx[1] != m[1]:
+            raise RuntimeError('exact round-half-even and the float share differ away from the tie (n=%d)' % n)
+    ck.extra['by_arm_tie_sizes'] = ties
+
+
+# ----------------------------------------------------------------------------
+# the whole table along the code's path: haar computed (C11 core), variants=, processes, row order
+
+HAAR_LEVELS = [1, 2, 3, 4, 5]       # haarStartLevel .. haarEndLevel (the model reads them from Gen/HaarDefaults.v)
+FDR_EPS = 1e-16
+HAAR_Q = 0.0001                     # do_segmentation's default threshold for haar (tied by the genspec)
+# On the variants= path (outside the property's quantifier, which lists no variants option) the rows made by
+# hmm.variants_in_segment carry the number of VARIANTS of each allele-frequency run in `probes`, not the number of surviving
+# bins: deliberate, modelled as it is (C03_variant_rows), never flagged; the accounting clause is not applied to such tables.
+# Repaired in /repo 0138a18: a re-split row that overlaps no input bin (its variants lie in a gap between bins) was skipped
+# by iter_slices(..., keep_empty=False) inside transfer_fields, so every later row of the piece received its successor's
+# gene / weight / depth and the last kept "-", 0, 0. The failing input is a corpus case; C03_fields is applied to every row.
+
+
+class Taps:
+    """records, inside this process only, what the oracles of the table-level model are made of: every haarSeg call
+    (its input signal = cnarr.smooth_log2(), weights, the FDRThres calls inside it) and every hmm.variants_in_segment
+    call (the segment, the number of variants, the HMM state path handed to squash_by_groups)"""
+
+    def __enter__(self):
+        import numpy as np
+        from cnvlib.segmentation import haar, hmm
+        self.haar, self.hmm = haar, hmm
+        self.orig = (haar.one_chrom, haar.haarSeg, haar.FDRThres, hmm.variants_in_segment, hmm.squash_by_groups)
+        self.haar_calls, self.var_calls = [], []
+        self._chrom, self._cur, self._vcur = None, None, None
+        taps = self
+
+        def one_chrom(cnarr, fdr_q, chrom):
+            taps._chrom = str(chrom)
+            return taps.orig[0](cnarr, fdr_q, chrom)
+
+        def haarSeg(I, breaksFdrQ, W=None, **kw):
+            rec = {'chrom': taps._chrom, 'I': [float(x) for x in np.asarray(I, dtype=float)],
+                   'W': None if W is None else [float(x) for x in W], 'q': float(breaksFdrQ), 'fdr': []}
+            taps.haar_calls.append(rec)
+            taps._cur = rec
+            try:
+                return taps.orig[1](I, breaksFdrQ, W=W, **kw)
+            finally:
+                taps._cur = None
+
+        def FDRThres(x, q, stdev):
+            t = taps.orig[2](x, q, stdev)
+            if taps._cur is not None:
+                taps._cur['fdr'].append((np.array(x, dtype=float).copy(), float(q), float(stdev), float(t)))
+            return t
+
+        def variants_in_segment(varr, segment, *a, **kw):
+            rec = {'chrom': str(segment.chromosome), 'start': int(segment.start), 'end': int(segment.end),
+                   'n': len(varr), 'states': []}
+            taps.var_calls.append(rec)
+            taps._vcur = rec
+            try:
+                return taps.orig[3](varr, segment, *a, **kw)
+            finally:
+                taps._vcur = None
+
+        def squash_by_groups(cn, levels, by_arm=False):
+            if taps._vcur is not None and not by_arm:
+                taps._vcur['states'] = [int(x) for x in levels.values]
+            return taps.orig[4](cn, levels, by_arm=by_arm)
+
+        haar.one_chrom, haar.haarSeg, haar.FDRThres = one_chrom, haarSeg, FDRThres
+        hmm.variants_in_segment, hmm.squash_by_groups = variants_in_segment, squash_by_groups
+        return self
+
+    def __exit__(self, *a):
+        (self.haar.one_chrom, self.haar.haarSeg, self.haar.FDRThres,
+         self.hmm.variants_in_segment, self.hmm.squash_by_groups) = self.orig
+
+
+def fdr_oracles(calls):
+    """the oracles of Model/Haar.v per level: p-values the way FDRThres computes them (sigma is the LOCATION of the cdf),
+    the absorption flag fl(x0 + 1e-16) == x0; plus the smallest relative margin of the p <= m*q decisions and whether two
+    sorted peak magnitudes are a near-tie (float-ambiguity indicators, as in the C11 harness)"""
+    import numpy as np
+    from scipy import stats
+    pv, ab, margin, near_tie = [], [], 1.0, False
+    for x, q, stdev, t in calls:
+        M = len(x)
+        if M < 2:
+            pv.append([])
+            ab.append(False)
+            continue
+        xs = np.sort(np.abs(x))[::-1]
+        p = 2 * (1 - stats.norm.cdf(xs, stdev))
+        pv.append([float(v) for v in p])
+        ab.append(bool(xs[0] + FDR_EPS == xs[0]))
+        for i, v in enumerate(p):
+            thr = Fraction(i + 1, M) * Fraction(q)
+            d = abs(Fraction(float(v)) - thr)
+            margin = min(margin, float(d / thr) if thr else 1.0)
+        for a, b in zip(xs[:-1], xs[1:]):
+            if a != b and abs(a - b) <= 1e-9 * max(1.0, abs(a)):
+                near_tie = True
+    return pv, ab, margin, near_tie
+
+
+def sign_pattern_ambiguous(code, model):
+    def cmp(a, b):
+        return (a > b) - (a < b)
+    differ, all_tiny = False, True
+    for k in range(len(code)):
+        pairs = [(code[k], 0.0, model[k], 0)]
+        if k:
+            pairs.append((code[k], code[k - 1], model[k], model[k - 1]))
+        for cx, cy, mx, my in pairs:
+            if cmp(cx, cy) != cmp(mx, my):
+                differ = True
+                if abs(float(mx - my)) > 1e-9 * max(1.0, abs(float(mx))):
+                    all_tiny = False
+    return differ and all_tiny
+
+
+def haar_call_ambiguous(rec):
+    """is some decision inside this haarSeg call float-ambiguous (a p-value on its threshold, two peak magnitudes a
+    near-tie, or a convolution value whose sign / order differs between floats and exact rationals only by < 1e-9)?"""
+    import numpy as np
+    from cnvlib.segmentation import haar
+    pv, ab, margin, near_tie = fdr_oracles(rec['fdr'])
+    if margin < 1e-9 or near_tie:
+        return True
+    I = np.array(rec['I'], dtype=float)
+    W = None if rec['W'] is None else np.array(rec['W'], dtype=float)
+    for l in HAAR_LEVELS:
+        h = 2 ** l
+        cconv = [float(x) for x in haar.HaarConv(I, W, h)]
+        mconv = vlib.model_call('c11_conv', [rec['I'], rec['W'], h, math.sqrt(2.0 * h) if W is None else math.sqrt(h / 2)])
+        if not isinstance(mconv, Err) and len(mconv) == len(cconv) and sign_pattern_ambiguous(cconv, mconv):
+            return True
+    return False
+
+
+def to_variants(vtable):
+    """vtable: [(chrom, [[start, end, alt_freq], ...])] -> VariantArray shaped like load_het_snps' output"""
+    import pandas as pd
+    from cnvlib.vary import VariantArray as VA
+    recs = []
+    for name, vs in vtable:
+        for s, e, f in vs:
+            recs.append((name, s, e, 'A', 'G', 0.5, 64, int(round(64 * f)), f))
+    df = pd.DataFrame.from_records(recs, columns=['chromosome', 'start', 'end', 'ref', 'alt', 'zygosity', 'depth', 'alt_count', 'alt_freq'])
+    df['chromosome'] = df['chromosome'].astype(str)
+    return VA(df, {'sample_id': 'verif'})
+
+
+def run_table(table, method, opts, processes=1, vtable=None):
+    """do_segmentation on the whole table -> (rows in table order [(chrom, lo, hi, probes, log2, gene, weight, depth, baf)], taps)
+    or (Err, taps)"""
+    from cnvlib import segmentation
+    cna = to_cna(table)
+    varr = to_variants(vtable) if vtable is not None else None
+    with Taps() as taps:
+        try:
+            seg = segmentation.do_segmentation(cna, method, variants=varr, skip_low=opts['skip_low'],
+                                               skip_outliers=opts['skip_outliers'], min_weight=opts['min_weight'],
+                                               processes=processes)
+        except RuntimeError as e:
+            return Err('RuntimeError'), taps
+        except Exception as e:     # noqa
+            return Err('%s: %s' % (type(e).__name__, str(e)[:120])), taps
+    out = []
+    has_baf = 'baf' in seg.data.columns
+    for row in seg.data.itertuples(index=False):
+        pr = float(row.probes)
+        out.append((str(row.chromosome), int(row.start), int(row.end), int(pr) if pr == int(pr) else pr, fnum(row.log2),
+                    str(row.gene), fnum(row.weight), fnum(row.depth), fnum(row.baf) if has_baf else None))
+    return out, taps
+
+
+def lib_baf(varr, chrom, lo, hi):
+    """the BAF oracle: variants.baf_by_ranges on the single range (one row, so no row alignment is involved)"""
+    from skgenome import GenomicArray as GA
+    one = GA.from_rows([(chrom, lo, hi)], ['chromosome', 'start', 'end'])
+    return fnum(varr.baf_by_ranges(one).values[0])
+
+
+def same_num(a, b):
+    if a is None or b is None:
+        return a is None and b is None
+    return abs(a - b) <= 1e-9 * max(1.0, abs(b))
+
+
+def check_table_case(ck, case, cls):
+    """one table through do_segmentation(method in none / haar, optional variants=) with 1 process under the taps;
+    the table-level model (c03_table: by_arm, filters, haar computed by the C11 core, variants re-split, transfer_fields
+    through the C07 iter_slices model, pool, concat + sort) must give the same rows in the same order; the direct oracles
+    are evaluated on the code's rows. Returns the code's rows (or None)."""
+    table, method, vtable = case['table'], case['method'], case.get('variants')
+    opts = {'skip_low': case['skip_low'], 'skip_outliers': case['skip_outliers'], 'min_weight': case['min_weight']}
+    arms = code_arms(table)
+    masks = outlier_masks(table, method, opts, arms)
+    survs = {name: [py_survives(b, opts, o) for b, o in zip(bins, masks[name])] for name, bins in table}
+    rows, taps = run_table(table, method, opts, 1, vtable)
+    nsurv = sum(sum(v) for v in survs.values())
+    resplit = any(len(set(r['states'])) > 1 for r in taps.var_calls)
+    ck.count(case, nontrivial=True, cls=cls + (':resplit' if resplit else '') + (':error' if isinstance(rows, Err) else ''))
+    varr = to_variants(vtable) if vtable is not None else None
+
+    # --- model
+    mtag = 'haar' if method == 'haar' else 'none'
+    chroms = []
+    for name, bins in table:
+        hos = []
+        for rec in taps.haar_calls:
+            if rec['chrom'] == name:
+                pv, ab, _, _ = fdr_oracles(rec['fdr'])
+                hos.append([rec['I'], pv, ab])
+        vs = None
+        if vtable is not None:
+            vs = [[s, e] for s, e, f in dict(vtable).get(name, [])]
+        sts = [rec['states'] for rec in taps.var_calls if rec['chrom'] == name]
+        chroms.append([name, enc_bins(bins), masks[name], [], hos, vs, sts])
+    p = case.get('model_processes', 1)
+    req = [mtag, opts['skip_low'], F(opts['min_weight']), HAAR_Q, [math.sqrt(2.0 * 2 ** l) for l in HAAR_LEVELS],
+           [math.sqrt(2 ** l / 2) for l in HAAR_LEVELS], p, case.get('assign', [0]), chroms]
+    m = vlib.model_call('c03_table', req)
+
+    # --- the code raised
+    if isinstance(rows, Err):
+        if isinstance(m, Err) and m.msg == rows.msg:
+            return None                  # variants_in_segment's own RuntimeError (a row with start >= end), mirrored
+        if nsurv and vtable is None:
+            ck.violation('do_segmentation(%s) raised %s on a table with %d surviving bins' % (method, rows.msg, nsurv), case,
+                         code=rows, expected='a segment on every chromosome with a surviving bin', clause='C03_accounting')
+        else:
+            ck.tie_break('do_segmentation(%s) raised %s, the model did not' % (method, rows.msg), case, code=rows, model=m)
+        return None
+
+    # --- direct oracle on the code's rows
+    by = {}
+    for r in rows:
+        by.setdefault(r[0], []).append(r[1:])
+    bad = []
+    for name in by:
+        if name not in dict(table):
+            bad.append(('C03_tiling', 'segment on a chromosome %r without input bins' % name))
+    for name, bins in table:
+        crow = by.get(name, [])
+        got = oracle_chrom(method, bins, survs[name], arms[name], [r[:7] for r in crow])
+        if not resplit:
+            bad += [(cl, '%s: %s' % (name, msg)) for cl, msg in got]
+        else:
+            # probes (and the shared log2) of re-split rows belong to the allele-frequency runs, not to the bins:
+            # tiling + edges + fields (every row, also one that spans no bin: weight 0, depth 0, gene "-")
+            keep = ['C03_tiling', 'C03_arm_edges', 'C03_fields']
+            if any(not [b for b in bins if b[0] < r[1] and r[0] < b[1]] for r in crow):
+                ck.cls('table:variants:row-without-bins')
+            bad += [(cl, '%s: %s' % (name, msg)) for cl, msg in got if cl in keep]
+            if any(cl == 'C03_accounting' for cl, msg in got):
+                ck.cls('table:variants:probes-count-variants')
+        if varr is not None:
+            # baf of every row = BAF of its own range (first / last row of an arm: before or after the edge stretch)
+            S = [b for b, s in zip(bins, survs[name]) if s]
+            for i, r in enumerate(crow):
+                lo, hi = r[0], r[1]
+                los = [lo] + [b[0] for b in S if lo <= b[0] < hi][:1]
+                his = [hi] + [b[1] for b in S if lo < b[1] <= hi][-1:]
+                cands = {(a, b) for a in los for b in his}
+                if not any(same_num(r[7], lib_baf(varr, name, a, b)) for a, b in cands if a < b):
+                    bad.append(('C03_variant_rows', '%s: baf %r of row %d (%d-%d) is not the BAF of its own range (%r)' % (
+                        name, r[7], i, lo, hi, lib_baf(varr, name, lo, hi))))
+                    break
+    if sorted(rows, key=lambda r: (CHROMS.index(r[0]) if r[0] in CHROMS else CHROMS.index('chr' + r[0]), r[1], r[2])) != rows:
+        bad.append(('C03_parallel', 'the table is not in genome order'))
+    if bad:
+        ck.violation('%s: %s' % (method, bad[0][1]), case, code=rows, expected=[t for _, t in bad[:6]], clause=bad[0][0])
+        return rows
+
+    # --- code vs model
+    if isinstance(m, Err):
+        ck.tie_break('%s: model says %r, code returned a table' % (method, m), case, code=rows, model=m)
+        return rows
+    msg = None
+    if len(m) != len(rows):
+        msg = '%d rows vs %d in the model' % (len(rows), len(m))
+    else:
+        for i, (c, mr) in enumerate(zip(rows, m)):
+            mname, (mlo, mhi, mpr, mlog2, mgene, mw, mdp), blo, bhi = mr
+            if (c[0], c[1], c[2], c[3], c[5]) != (mname, mlo, mhi, mpr, mgene):
+                msg = 'row %d: (chrom,start,end,probes,gene) %r vs model %r' % (i, (c[0], c[1], c[2], c[3], c[5]), (mname, mlo, mhi, mpr, mgene))
+            elif not vlib.close(c[6], mw):
+                msg = 'row %d: weight %r vs model %r' % (i, c[6], mw)
+            elif not vlib.close(c[7], mdp):
+                msg = 'row %d: depth %r vs model %r' % (i, c[7], float(mdp))
+            elif not vlib.close(c[4], mlog2):
+                msg = 'row %d: log2 %r vs model %r' % (i, c[4], None if mlog2 is None else float(mlog2))
+            elif varr is not None and not same_num(c[8], lib_baf(varr, mname, blo, bhi)):
+                msg = 'row %d: baf %r vs BAF(%d, %d) = %r' % (i, c[8], blo, bhi, lib_baf(varr, mname, blo, bhi))
+            if msg:
+                break
+    if msg:
+        if method == 'haar' and any(haar_call_ambiguous(rec) for rec in taps.haar_calls):
+            ck.float_ambiguous += 1
+            ck.cls('table:float-ambiguous')
+            return rows
+        ck.tie_break('%s table: %s' % (method, msg), case, code=rows, model=m)
+    return rows
+
+
+def check_table_processes(ck, case, rows1):
+    """the same call with 2, 3, 16 processes: the identical table (rows, order, every column); and the table-level model
+    with that many workers and a random assignment of the arms to them gives the serial table (C03_parallel, run)"""
+    opts = {'skip_low': case['skip_low'], 'skip_outliers': case['skip_outliers'], 'min_weight': case['min_weight']}
+    for p in (2, 3, 16):
+        c2 = dict(case)
+        c2['processes'] = p
+        got, _ = run_table(case['table'], case['method'], opts, p, case.get('variants'))
+        ck.count(c2, nontrivial=False, cls='table-processes:%d' % p)
+        if repr(got) != repr(rows1):
+            ck.violation('%s: table with %d processes differs from the table with 1 process' % (case['method'], p), c2,
+                         code=got, expected=rows1, clause='C03_parallel')
+            return
+
+
+def gen_vtable(rng, table, opts):
+    """variants for the table: per chromosome absent / sparse (never more than 50 per segment) / dense with two
+    allele-fraction regimes (so that variants_in_segment re-splits); positions anywhere in the chromosome's span,
+    including filtered edge bins and the gaps between bins"""
+    vt = []
+    for name, bins in table:
+        mode = rng.choice(['absent', 'sparse', 'dense', 'dense', 'dense3'])
+        if mode == 'absent' or len(bins) < 2:
+            continue
+        lo, hi = bins[0][0], bins[-1][1]
+        k = rng.choice([rng.randint(1, 40), 50, 51]) if mode == 'sparse' else rng.choice([rng.randint(55, 160), 51, 52])
+        pos = sorted(rng.sample(range(lo + 1, hi + 1), min(k, hi - lo)))
+        cuts = sorted(rng.sample(range(1, len(pos)), min(len(pos) - 1, 1 if mode != 'dense3' else 2))) if len(pos) > 2 else []
+        level, vs = 0, []
+        for i, q in enumerate(pos):
+            if i in cuts:
+                level += 1
+            base = [0.5, 0.78, 0.5][level % 3]
+            f = min(0.98, max(0.02, round((base + rng.gauss(0, 0.03)) * 64) / 64.0))
+            if rng.random() < 0.5:
+                f = 1 - f if f != 0.5 else f
+            vs.append([q - 1, q, f])
+        vt.append([name, vs])
+    return vt
+
+
+def check_expected_rows(ck, case, rows):
+    """corpus table cases carry the rows the repaired code must report: (chrom, start, end, gene, weight, depth)"""
+    exp = case.get('expect_rows')
+    if exp is None or rows is None:
+        return
+    got = [[r[0], r[1], r[2], r[5], r[6], r[7]] for r in rows]
+    if len(got) != len(exp) or any(g[:4] != e[:4] or not same_num(g[4], e[4]) or not same_num(g[5], e[5]) for g, e in zip(got, exp)):
+        ck.violation('%s: %s' % (case['method'], case.get('what', 'corpus table case: rows differ from the recorded expectation')), case,
+                     code=got, expected=exp, clause=case.get('clause', 'C03_fields'))
+
+
+def shuffled_chroms(rng, table):
+    """the same chromosomes in another order (the final table must come back in genome order)"""
+    t = list(table)
+    rng.shuffle(t)
+    return t
+
+
+def run_table_stream(ck):
+    """tables through the whole-table model: haar computed end to end, `variants=` for none and haar, the process
+    counts 1, 2, 3, 16 (rows, order and every column identical), chromosomes given out of genome order"""
+    rng = ck.rng
+    quick = ck.tier == 'quick'
+    plan = ([('haar', False)] * 7 + [('none', True)] * 7 + [('haar', True)] * 5 + [('none', False)] * 3) if quick else \
+           ([('haar', False)] * 90 + [('none', True)] * 100 + [('haar', True)] * 60 + [('none', False)] * 30)
+    n_proc = 3 if quick else 30
+    for i, (method, with_var) in enumerate(plan):
+        size = rng.choice(['small', 'mid', 'mid', 'arm'] if method == 'haar' else ['small', 'mid', 'arm'])
+        table = gen_table(rng, size)
+        if rng.random() < 0.3:
+            table = shuffled_chroms(rng, table)
+        opts = gen_opts(rng, table)
+        vt = gen_vtable(rng, table, opts) if with_var else None
+        njobs = 2 * len(table)
+        p = rng.choice([1, 2, 3, 16])
+        case = dict(kind='table', table=table, method=method, processes=1, variants=vt, model_processes=p,
+                    assign=[rng.randrange(p) for _ in range(njobs)], **opts)
+        rows = check_table_case(ck, case, 'table:%s%s:%s' % (method, '+variants' if with_var else '', size))
+        if rows is not None and n_proc > 0 and len(table) > 1 and (i % 6 == 1):
+            n_proc -= 1
+            check_table_processes(ck, case, rows)
+    ck.extra['table_process_variation_cases'] = (3 if quick else 30) - n_proc
 
 
 def run(ck, scratch):
@@ -550,16 +988,31 @@ def run(ck, scratch):
                'last, first/last few and interior bins; whole chromosomes without a survivor; gene names with duplicates, '
                'Antitarget/Background/-/./CGH and embedded commas. Every table is run with none and haar (and a sample with hmm, '
                'hmm-tumor, hmm-germline) under random skip_low x skip_outliers {off,10,5,3} x min_weight {0, 0.25, 0.5, a bin weight}; '
-               'a sample of per-arm cases is re-run with 2, 3, 16 processes. non-trivial = a bin was filtered, or some chromosome got '
-               'more than one segment, or was split into arms; distinct by case hash')
+               'a sample of per-arm cases is re-run with 2, 3, 16 processes. Whole-table stream (c03_table: by_arm, filters, haar '
+               'COMPUTED by the C11 core from the smoothed signal and the FDR p-values recorded by taps, haar\'s own re-split of the '
+               'survivors, transfer_fields through the C07 iter_slices model, pool, concat + sort): haar / none, with and without '
+               'variants= (0..160 SNVs per chromosome in 1..3 allele-fraction regimes, anywhere in the span incl. gaps and filtered '
+               'edge bins; chromosomes absent from the variant table), chromosomes given out of genome order, compared row by row '
+               'in table order incl. log2 and baf; re-run with 2, 3, 16 processes. by_arm alone: 1..1015 rows incl. n = 5 (mod 10) '
+               'above 500, equal largest gaps. non-trivial = a bin was filtered, or some chromosome got more than one segment, or '
+               'was split into arms; distinct by case hash')
     ck.unproved_remainder = [
         'cbs and flasso need R, which is absent here: they are never executed; they are covered only through the shared '
         'transfer_fields model (stretch + aggregation theorems), not by correspondence',
-        'where haar / the HMM put breakpoints, and the outlier mask, are oracles taken from the code on each case '
-        '(the theorems hold for every breakpoint list and every mask); haar\'s own log2 estimate is not modelled',
-        'round(0.1*n) in by_arm is float-sensitive at n = 5 (mod 10), n > 500: those sizes are not generated',
-        'that the searchsorted selection of iter_slices equals the plain overlap filter on sorted non-overlapping bins '
-        'is checked by correspondence here and proved under C07',
+        'oracles taken from the code on each case: the outlier mask; the HMM state paths (hmm methods: breakpoints; variants=: '
+        'the allele-frequency runs); for haar the smoothed signal cnarr.smooth_log2() (Savitzky-Golay), the sqrt scale constants '
+        'and the FDR p-values -- the breakpoints and the log2 column are then COMPUTED by the model (C03_haar_table); decisions '
+        'of the haar core that are float-ambiguous (a p-value within 1e-9 of its threshold, near-tied peaks, a convolution value '
+        'whose sign differs only below 1e-9) are counted float_ambiguous and not compared',
+        'round(0.1*n) in by_arm goes through a float product: the integer is taken from the same expression '
+        '(oracle with the contract |r - n/10| <= 1/2, checked on every supplied value; C03_arms holds for every r)',
+        'the BAF of a range (variants.baf_by_ranges) is an oracle function; C03_variant_rows says which range each row asks it for',
+        'on the variants= path `probes` counts the variants of the allele-frequency run, not bins (outside the property\'s '
+        'quantifier; modelled as it is, never flagged; the accounting clause is not applied to re-split tables)',
+        'which variants belong to a segment (variants.by_ranges, outer) is modelled by the overlap filter, justified by C07 on '
+        'the C07 side; only the aggregation step of transfer_fields runs the C07 iter_slices model itself',
+        'pickling of the arms to worker processes and the executor itself are outside the model: C03_parallel is about the '
+        'schedule-independence of the collected results, tied by comparing whole tables across 1, 2, 3, 16 processes',
     ]
     if not ck.build_status.get('driver_ok'):
         raise RuntimeError('model driver unavailable')
@@ -567,8 +1020,13 @@ def run(ck, scratch):
     rng = ck.rng
     # corpus first
     for i, case in enumerate(load_corpus()):
-        rows = check_case(ck, case, 'corpus')
+        if case.get('kind') == 'table':
+            rows = check_table_case(ck, case, 'corpus:table')
+            check_expected_rows(ck, case, rows)
+        else:
+            rows = check_case(ck, case, 'corpus')
     check_by_arm(ck)
+    run_table_stream(ck)
     # random stream
     sizes = (['small'] * 34 + ['mid'] * 14 + ['arm'] * 12) if quick else (['small'] * 300 + ['mid'] * 180 + ['arm'] * 120)
     n_hmm = 12 if quick else 600
@@ -605,7 +1063,10 @@ def replay(ck, body):
             if b[4] == 'NaN':
                 b[4] = None
     ck.build_status = {'driver_ok': os.path.exists(vlib.DRIVER)}
-    check_case(ck, case, 'replay')
+    if case.get('kind') == 'table':
+        check_table_case(ck, case, 'replay')
+    else:
+        check_case(ck, case, 'replay')
     for kind, what, path in ck.violations:
         print('reproduced: %s (%s)' % (what, path))
     for what, path in ck.tie_breaks:
